@@ -131,6 +131,7 @@ class Program:
         self.funcs: dict[str, Func] = {}
         self._func_of_node: dict[int, Func] = {}
         self._types: dict[str, dict] = {}
+        self.normalized: list[str] = []
         self._load()
         self.digest = self._digest()
         if use_mypy:
@@ -140,11 +141,14 @@ class Program:
             except Exception as e:  # noqa: BLE001
                 raise AnalysisError(f'mypy type oracle failed: {type(e).__name__}: {e}') from e
         self._calls_cache: dict[tuple, list[Target]] = {}
+        self.expanded: list[str] = []
         self._nodes_cache: dict[str, list[ast.AST]] = {}
         self._callsin_cache: dict[str, list[ast.Call]] = {}
         self._defs_cache: dict[str, dict[str, list[ast.expr]]] = {}
         self._props_cache: dict[tuple, list] = {}
         self.family: 'Family | None' = None
+        from kfv import inline
+        self.expanded = inline.expand(self)
 
     # ------------------------------------------------------------------ load
     def _digest(self) -> str:
@@ -169,17 +173,44 @@ class Program:
                     tree = ast.parse(src, filename=path)
                 except SyntaxError as e:
                     raise AnalysisError(f'cannot parse {path}: {e}') from e
-                mod = Mod(rel, path, src, tree)
-                for p in ast.walk(tree):
-                    for c in ast.iter_child_nodes(p):
-                        mod.parents[id(c)] = p
-                self.modules[rel] = mod
+                self.modules[rel] = Mod(rel, path, src, tree)
+        from kfv import normalize
+        mutable = normalize.mutable_attrs([m.tree for m in self.modules.values()])
+        for rel, mod in self.modules.items():
+            _tree, nlog = normalize.run(mod.tree, mutable)
+            self.normalized += [f'{rel}: {x}' for x in nlog]
+            for p in ast.walk(mod.tree):
+                for c in ast.iter_child_nodes(p):
+                    mod.parents[id(c)] = p
         for mod in self.modules.values():
             self._imports(mod)
         for mod in self.modules.values():
             self._collect(mod, mod.tree.body, prefix=mod.name, cls=None, parent=None)
         for c in self.classes.values():
             c.bases = [self._resolve_base(c, b) for b in c.node.bases]
+
+    def reindex(self) -> None:
+        """Rebuild parent maps, nested-function tables and caches after an in-place AST transformation."""
+        for mod in self.modules.values():
+            mod.parents.clear()
+            for p_ in ast.walk(mod.tree):
+                for c in ast.iter_child_nodes(p_):
+                    mod.parents[id(c)] = p_
+        # nested functions / lambdas may have been copied into other functions
+        top = [f for f in self.funcs.values() if f.parent is None]
+        for q in [q for q, f in self.funcs.items() if f.parent is not None]:
+            f = self.funcs.pop(q)
+            self._func_of_node.pop(id(f.node), None)
+        for f in top:
+            mod = self.modules[f.module]
+            prefix = f.qualname.rsplit('.', 1)[0]
+            for n in self._direct_nested(f.node):
+                self._add_func(mod, n, prefix, None, f)
+        self._calls_cache.clear()
+        self._nodes_cache.clear()
+        self._callsin_cache.clear()
+        self._defs_cache.clear()
+        self._props_cache.clear()
 
     def _imports(self, mod: Mod) -> None:
         for n in ast.walk(mod.tree):
@@ -367,10 +398,11 @@ class Program:
 
     # ------------------------------------------------------------------ types
     def type_entries(self, mod: str, node: ast.AST) -> list[tuple[str, str, tuple[str, ...]]]:
+        mod = getattr(node, '_kfv_mod', mod)
         t = self._types.get(mod)
         if t is None or not hasattr(node, 'lineno'):
             return []
-        key = (node.lineno, node.col_offset, node.end_lineno, node.end_col_offset)  # type: ignore[attr-defined]
+        key = getattr(node, '_kfv_pos', None) or (node.lineno, node.col_offset, node.end_lineno, node.end_col_offset)  # type: ignore[attr-defined]
         ents = t.get(key, [])
         want = {ast.Name: 'NameExpr', ast.Attribute: 'MemberExpr', ast.Call: 'CallExpr',
                 ast.Subscript: 'IndexExpr'}.get(type(node))
@@ -621,7 +653,7 @@ class Program:
     def loc(self, f: Func | str, node: ast.AST | None = None) -> str:
         mod = f.module if isinstance(f, Func) else f
         path = os.path.relpath(self.modules[mod].path, self.root)
-        line = getattr(node, 'lineno', None) if node is not None else (getattr(f.node, 'lineno', None) if isinstance(f, Func) else None)
+        line = (getattr(node, '_kfv_line', None) or getattr(node, 'lineno', None)) if node is not None else (getattr(f.node, 'lineno', None) if isinstance(f, Func) else None)
         return f'{path}:{line}' if line else path
 
 
